@@ -270,8 +270,7 @@ func ruleFreshBlock(c *Ctx, r *Report, rule string) {
 			if !ok {
 				return false
 			}
-			id, ok := call.Fun.(*ast.Ident)
-			return ok && vm.Closures[id.Name] != nil && id.Name == "readConst"
+			return vm.callRole(c, call) == "readConst"
 		}
 		typeFirst := false
 		for _, o := range order {
